@@ -340,6 +340,14 @@ pub fn record(args: &Args) {
                         trusted_here = true;
                         settle().await;
                         tw.emit(json!({"name": "connect", "st": world.snapshot(Some(&syncer)).await}));
+                    } else if !trusted_here {
+                        // the honest phase owes the node a trusted peer: a syncer that has not initialised yet (or must
+                        // initialise again) can not do so with ordinary peers only
+                        w::set_peer_counts(&handle, 2, 1);
+                        trusted_here = true;
+                        plain_peer = true;
+                        settle().await;
+                        tw.emit(json!({"name": "trustedjoin", "st": world.snapshot(Some(&syncer)).await}));
                     } else if !got_cmd {
                         // let timers (backoff, 1 s init delay) fire
                         tokio::time::sleep(Duration::from_secs(70)).await;
@@ -358,7 +366,7 @@ pub fn record(args: &Args) {
             settle().await;
             drain_events(&mut sub, &world, &syncer, &mut tw, &mut cur_batch, &mut cur_kind, &mut failed_seen,
                          &mut n_fetch, &mut fatal, &mut rng, false, &mode, &mut init_inflight).await;
-            tw.emit(json!({"name": "quiescent", "netHead": net_head, "check_live": (mode == "c38" && connected) as u8,
+            tw.emit(json!({"name": "quiescent", "netHead": net_head, "check_live": (mode == "c38" && connected && trusted_here) as u8,
                            "st": world.snapshot(Some(&syncer)).await}));
             syncer.stop();
             syncer.join().await;
